@@ -88,4 +88,11 @@ def obligations(tier):
         obs.append(Ob("keypair-" + nm, "C18/sign_keypair.c", units=SU, stubs=["ideal_hash.c", "ideal_ed25519.c", "rng.c", "misuse.c", "libc.c", "x86_builtins.c"],
                       defs={"WHICH": w}, unwind=80, timeout=300, family="keypair",
                       desc="Ed25519 key pair generators: seed == 32 source bytes, (pk, sk) == seed_keypair(seed)", bounds="all source byte values"))
+    # crypto_core_ed25519_scalar_random / crypto_core_ristretto255_scalar_random (core_ed25519.c is an anchor of this
+    # property): the rejection-sampling obligation of the C07 registry belongs to this check as well
+    from obligations import C07 as _c07
+    for o in _c07.obligations(tier):
+        if o.name == "core-random":
+            o.family = "scalar-random"
+            obs.append(o)
     return obs
